@@ -32,9 +32,11 @@ def r_unitdir(idx, rep, rule="R-UNITDIR"):
     for st in iter_stmts(f.node.body):
         if isinstance(st, ast.Assign) and isinstance(st.targets[0], ast.Tuple) and isinstance(st.value, ast.Call) and (call_name(st.value) or "").startswith("_find_penetration"):
             tg = [u(e) for e in st.targets[0].elts]
-            rep.check(tg == ["depth", "penetration_direction", "contact_position"], rule, f.key + "|unpack %s" % call_name(st.value), "%s:%d" % (f.module.relpath, st.lineno),
+            want = [u(e) for e in rets[-1].value.elts[1:]] if rets and isinstance(rets[-1].value, ast.Tuple) and len(rets[-1].value.elts) == 4 else None
+            rep.check(tg == want, rule, f.key + "|unpack %s" % call_name(st.value), "%s:%d" % (f.module.relpath, st.lineno),
                       "%s's (depth, direction, position) is unpacked into %s" % (call_name(st.value), tg))
-    ok = bool(rets) and u(rets[-1].value).replace(" ", "") in ("(intersection,depth,penetration_direction,contact_position)", "intersection,depth,penetration_direction,contact_position")
+    ok = bool(rets) and isinstance(rets[-1].value, ast.Tuple) and len(rets[-1].value.elts) == 4 and all(isinstance(e, ast.Name) for e in rets[-1].value.elts) \
+        and isinstance(s, tuple) and s[1] in (NONNEG, ZERO) and s[2] in (UNIT0, ZERO)
     rep.check(ok, rule, f.key + "|return order", f.where, "mpr_penetration must return (intersection, depth, penetration_direction, contact_position)")
     # touching contact: zero direction when |depth| < EPSILON
     p = idx.func(M + "::_penetration_info")
